@@ -21,12 +21,14 @@ type RunFn func(prefix []int) *explore.Exec
 type Lookup func(name string) RunFn
 
 type Job struct {
-	Scns     []string `json:"scns"`
-	Bound    int      `json:"bound"`
-	Shard    int      `json:"shard"`
-	NShards  int      `json:"nshards"`
-	MaxExec  int      `json:"max_exec"`
-	Deadline int64    `json:"deadline_unix"`
+	Scns       []string `json:"scns"`
+	Bound      int      `json:"bound"`
+	FreeBound  int      `json:"free_bound"`
+	TotalBound int      `json:"total_bound"`
+	Shard      int      `json:"shard"`
+	NShards    int      `json:"nshards"`
+	MaxExec    int      `json:"max_exec"`
+	Deadline   int64    `json:"deadline_unix"`
 }
 
 type ScnResult struct {
@@ -52,7 +54,7 @@ func Worker(lk Lookup) func(json.RawMessage) any {
 				out.Results = append(out.Results, ScnResult{name, &explore.Stats{Internal: "unknown scenario " + name}})
 				continue
 			}
-			cfg := explore.Config{Bound: j.Bound, MaxExec: j.MaxExec, Shard: j.Shard, NShards: j.NShards}
+			cfg := explore.Config{Bound: j.Bound, FreeBound: j.FreeBound, TotalBound: j.TotalBound, MaxExec: j.MaxExec, Shard: j.Shard, NShards: j.NShards}
 			if j.Deadline > 0 {
 				cfg.Deadline = time.Unix(j.Deadline, 0)
 			}
@@ -79,11 +81,13 @@ func Worker(lk Lookup) func(json.RawMessage) any {
 
 // Plan is one group of scenarios explored with the same bound.
 type Plan struct {
-	Scns    []string
-	Bound   int // <0 unbounded
-	NShards int // shards per scenario (>1 only sensible for few, large scenarios)
-	Batch   int // scenarios per worker job when NShards<=1 (default 1)
-	MaxExec int // per job cap
+	Scns       []string
+	Bound      int // <0 unbounded
+	TotalBound int // bound on all deviations together (delay bounding); 0 = unlimited
+	FreeBound  int // delay bound for switches at blocking points; 0 = unlimited
+	NShards    int // shards per scenario (>1 only sensible for few, large scenarios)
+	Batch      int // scenarios per worker job when NShards<=1 (default 1)
+	MaxExec    int // per job cap
 }
 
 type Summary struct {
@@ -113,7 +117,7 @@ func Drive(c *report.Check, plans []Plan, budget time.Duration) *Summary {
 		if p.NShards > 1 {
 			for _, s := range p.Scns {
 				for k := 0; k < p.NShards; k++ {
-					jobs = append(jobs, Job{Scns: []string{s}, Bound: p.Bound, Shard: k, NShards: p.NShards, MaxExec: p.MaxExec, Deadline: deadline})
+					jobs = append(jobs, Job{Scns: []string{s}, Bound: p.Bound, FreeBound: p.FreeBound, TotalBound: p.TotalBound, Shard: k, NShards: p.NShards, MaxExec: p.MaxExec, Deadline: deadline})
 				}
 			}
 			continue
@@ -127,7 +131,7 @@ func Drive(c *report.Check, plans []Plan, budget time.Duration) *Summary {
 			if e > len(p.Scns) {
 				e = len(p.Scns)
 			}
-			jobs = append(jobs, Job{Scns: p.Scns[i:e], Bound: p.Bound, NShards: 1, MaxExec: p.MaxExec, Deadline: deadline})
+			jobs = append(jobs, Job{Scns: p.Scns[i:e], Bound: p.Bound, FreeBound: p.FreeBound, TotalBound: p.TotalBound, NShards: 1, MaxExec: p.MaxExec, Deadline: deadline})
 		}
 	}
 	outs := par.Map(jobs)
